@@ -1,9 +1,15 @@
 #!/usr/bin/env python3
 """Instantiates the shared connection-layer harness template for 0.6 and 0.7. argv: repo hdir ..."""
-import os, sys
+import os, re, sys
 hdir = sys.argv[2]
 here = os.path.dirname(os.path.abspath(__file__))
 tpl = open(os.path.join(here, "..", "templates", "net_conn_common.rs.tpl")).read()
 for v in ("06", "07"):
+    t = tpl
+    if v == "06":
+        # states that exist only in the 0.7 handshake
+        t = re.sub(r"// __ONLY07_BEGIN__.*?// __ONLY07_END__\n", "", t, flags=re.S)
+    else:
+        t = re.sub(r"// __ONLY06_BEGIN__.*?// __ONLY06_END__\n", "", t, flags=re.S)
     with open(os.path.join(hdir, "gen_net_conn%s.rs" % v), "w") as f:
-        f.write(tpl.replace("__V__", v))
+        f.write(t.replace("__V__", v))
